@@ -16,7 +16,7 @@ import (
 	"time"
 
 	"verif/mc/engine"
-	_ "verif/mc/props"
+	"verif/mc/props"
 )
 
 func tools() map[string]string {
@@ -94,6 +94,25 @@ func main() {
 		}
 		res := engine.RunWorker(p, env)
 		if err := engine.WriteJSON(*out, res); err != nil {
+			fmt.Fprintln(os.Stderr, err)
+			os.Exit(2)
+		}
+	case "racepass":
+		// mc racepass <tier> <outfile>: free-running pass of the C12 bodies (binary built with -race)
+		if len(os.Args) < 4 {
+			os.Exit(2)
+		}
+		root := envOr("VERIF_SCRATCH", "/var/tmp/nfpm-verif")
+		os.MkdirAll(root, 0o755)
+		scratch, err := os.MkdirTemp(root, "racepass-")
+		if err != nil {
+			fmt.Fprintln(os.Stderr, err)
+			os.Exit(2)
+		}
+		env := &engine.Env{Tier: os.Args[2], Seed: seed, Scratch: scratch, Repo: repo, Verif: verif, Of: 1, Data: map[string]any{}, Tools: tools()}
+		err = props.RacePass(env, os.Args[3])
+		os.RemoveAll(scratch)
+		if err != nil {
 			fmt.Fprintln(os.Stderr, err)
 			os.Exit(2)
 		}
